@@ -304,6 +304,10 @@ def encoding(
             logger.debug("gamma %s", gamma)
             logger.debug("vSums %s", vSums[index])
             logger.debug("fSums %s", fSums[index])
+        if not fSums[index]:
+            # no world falsifies this conditional: it is accepted whatever the parameters
+            # are (a minimum over no terms would make the system unsatisfiable)
+            continue
         mv, mf = freshVars(index)
         vMin = minima_encoding(mv, vSums[index])
         fMin = minima_encoding(mf, fSums[index])
